@@ -743,9 +743,9 @@ def build_expr(case, res):
         if rec is None:
             orac = "(BadOracle, BadOracle)"
         else:
-            orac = "(gen_labels_o false %s %s %s %s %s, gen_labels_o true %s %s %s %s %s)" % (
-                dz, z(case["n"]), pspec_coq(case["p"]), qll(rec[0]), qll(rec[1]),
-                dz, z(case["n"]), pspec_coq(case["p"]), qll(rec[0]), qll(rec[1]))
+            oargs = "%s %s %s %s %s" % (dz, z(case["n"]), pspec_coq(case["p"]), qll(rec[0]), qll(rec[1]))
+            orac = "(%s, %s)" % ("gen_labels_o false " + oargs if PINNED_VARIANTS["honour"] is not True else "(@BadOracle (list Z))",
+                                 "gen_labels_o true " + oargs if PINNED_VARIANTS["honour"] is not False else "(@BadOracle (list Z))")
         return "(%s, gen_labels %s %s %s, %s, %s)" % (dz, dz, z(case["n"]), pspec_coq(case["p"]), orac, sess), ctx
     if kind in ("noise_cat", "noise_missing"):
         cols = transpose(X, nc)
@@ -770,8 +770,10 @@ def build_expr(case, res):
         sess = "enc_state (session %s %s [ONoise %s %s])" % (z(nr), z(nc), vlib.blit(kind == "noise_missing"), p)
         if kind == "noise_cat":
             args = "%s %s %s %s %s %s" % (zll(cols), zl(case["y"]), p, z(kk), zl(res.get("inds", [])), st)
-            return "(noise_cat false %s, noise_cat true %s, noise_cat_check %s %s %s %s %s, %s)" % (
-                args, args, zll(cols), z(nr), p, z(kk), outc, sess), ctx
+            # a pinned variant is the only one evaluated (the other slot is a placeholder)
+            old = "noise_cat false %s" % args if PINNED_VARIANTS["cum"] is not True else "(@BadOracle mat)"
+            new = "noise_cat true %s" % args if PINNED_VARIANTS["cum"] is not False else "(@BadOracle mat)"
+            return "(%s, %s, noise_cat_check %s %s %s %s %s, %s)" % (old, new, zll(cols), z(nr), p, z(kk), outc, sess), ctx
         return "(noise_missing %s %s %s %s %s %s, noise_missing_check %s %s %s %s %s %s, %s)" % (
             zll(cols), z(nr), p, z(kk), z(marker), st, zll(cols), z(nr), p, z(kk), z(marker), outc, sess), ctx
     if kind == "down":
@@ -1194,7 +1196,8 @@ def choose_modes(cases, res, vmap, effs, stats):
     pinned = PINNED_VARIANTS
     modes = {d: (pinned[d] if pinned.get(d) is not None else votes[d][1] > votes[d][0]) for d in votes}
     stats["code_variant"] = {"noise_slices": "cumulative offsets" if modes["cum"] else "as first read (previous count, last row dropped)",
-                             "labels_scalar_p_n_gt_2": "honoured" if modes["honour"] else "ignored (uniform)", "votes": votes}
+                             "labels_scalar_p_n_gt_2": "honoured" if modes["honour"] else "ignored (uniform)", "pinned": dict(pinned),
+                             "cases_reproduced_per_variant": votes}
     return modes
 
 
